@@ -420,6 +420,12 @@ func c19Parser(c *Ctx) {
 	rule := "C19/parser"
 	fn := c.Fn("cmd/rdpgw/rdp/koanf/parsers/rdp", "RDP.Unmarshal")
 	splits := c.findSteps(fn, "strings.SplitN", "strings.Split", "strings.Fields", "strings.SplitAfterN")
+	if len(splits) == 0 {
+		// the other spelling of "three fields at the first two separators": two chained strings.Cut
+		if c19ParserCut(c, rule, fn) {
+			return
+		}
+	}
 	if len(splits) != 1 {
 		c.Bad(rule, "Unmarshal split", fn.Pos(), "expected one split of the line, found %d", len(splits))
 		return
@@ -613,6 +619,11 @@ func c19Letters(c *Ctx) {
 			}
 		}
 	}
+	for _, ci := range callsTo(ma, "(*bytes.Buffer).WriteString", "(*strings.Builder).WriteString") {
+		if s, ok := constString(arg(ci, 0)); ok && s == "\r\n" {
+			crlf = true
+		}
+	}
 	c.Check(crlf, rule, "Marshal CRLF", ma.Pos(), "lines end with CRLF", "Marshal does not terminate lines with CRLF")
 	c.Floor(rule, 5, "4 formats + CRLF")
 	_ = n
@@ -747,4 +758,124 @@ func describeValue(v ssa.Value) string {
 		return describe(in)
 	}
 	return v.String()
+}
+
+// c19ParserCut: Unmarshal splits a line with key, rest, ok := strings.Cut(line, ":") and
+// t, val, ok := strings.Cut(rest, ":") — the value keeps further ':' — and stores a setting only when
+// both separators were found; a line lacking one ends the parse. Returns false when the function
+// does not have this shape (the caller then reports).
+func c19ParserCut(c *Ctx, rule string, fn *ssa.Function) bool {
+	var cuts []*ssa.Call
+	for _, ci := range callsTo(fn, "strings.Cut") {
+		if sep, ok := constString(arg(ci, 1)); ok && sep == ":" {
+			cuts = append(cuts, ci.(*ssa.Call))
+		}
+	}
+	if len(cuts) != 2 {
+		return false
+	}
+	first, second := cuts[0], cuts[1]
+	if strip(arg(second, 0)) != resultOf(first, 1) {
+		first, second = second, first
+	}
+	chained := strip(arg(second, 0)) == resultOf(first, 1)
+	c.Check(chained, rule, "Unmarshal split", first.Pos(), "Cut(line, \":\") then Cut(rest, \":\"): three fields, a value may contain ':'", "the two strings.Cut calls are not chained (the second must split the remainder of the first)")
+	var head *ssa.BasicBlock
+	for _, ci := range callsTo(fn, "(*bufio.Scanner).Scan") {
+		head = ci.Block()
+	}
+	if head == nil {
+		c.Undecided(rule, "Unmarshal loop", fn.Pos(), "scanner loop not found")
+		return true
+	}
+	for _, ci := range callsTo(fn, "(*bufio.Scanner).Buffer") {
+		k, isC := constInt(arg(ci, 1))
+		c.Check(isC && k >= 64*1024, rule, "Unmarshal scanner-buffer", ci.Pos(), "line buffer limit >= 64 KiB", "the parser caps its line buffer below the default: a longer line stops the scan without an error and the rest of the file, malformed lines included, is dropped")
+	}
+	ok1, ok2 := resultOf(first, 2), resultOf(second, 2)
+	nUpd := 0
+	eachInstr(fn, func(in ssa.Instruction) {
+		mu, ok := in.(*ssa.MapUpdate)
+		if !ok {
+			return
+		}
+		nUpd++
+		a, _ := mustPass(fn, mu, GTrue(isVal(ok1)))
+		b, why := mustPass(fn, mu, GTrue(isVal(ok2)))
+		c.Check(a && b, rule, fmt.Sprintf("Unmarshal store#%d three-fields", nUpd), mu.Pos(), "a setting is stored only from a line with exactly three fields", "a setting is stored "+why+" of both separators having been found")
+	})
+	badEdges := 0
+	for _, b := range fn.Blocks {
+		if len(b.Instrs) == 0 {
+			continue
+		}
+		ifi, ok := b.Instrs[len(b.Instrs)-1].(*ssa.If)
+		if !ok {
+			continue
+		}
+		for i, succ := range b.Succs {
+			malformed := ""
+			if GFalse(isVal(ok1))(ifi.Cond, i == 0) || GFalse(isVal(ok2))(ifi.Cond, i == 0) {
+				malformed = "a line without three fields"
+			}
+			core, _ := normCond(ifi.Cond)
+			if bo, isBo := core.(*ssa.BinOp); isBo {
+				for _, side := range []ssa.Value{bo.X, bo.Y} {
+					if ex, ok := side.(*ssa.Extract); ok && ex.Index == 1 {
+						if call, ok := ex.Tuple.(*ssa.Call); ok && calleeName(call) == "strconv.Atoi" && GNeq(isVal(ex), anyNil)(ifi.Cond, i == 0) {
+							malformed = "a bad integer"
+						}
+					}
+				}
+			}
+			if malformed != "" {
+				badEdges++
+				c.Check(!reachableBlock(fn, succ, head), rule, "Unmarshal malformed "+malformed, ifi.Pos(), "ends the parse (no path back to the next line)", "after "+malformed+" the parser continues with the next line: malformed template lines are silently skipped")
+			}
+		}
+	}
+	if badEdges < 3 {
+		c.Undecided(rule, "Unmarshal malformed edges", fn.Pos(), "found %d refusing edges (two missing separators and a bad integer expected)", badEdges)
+	}
+	// unknown type letters end the parse: the switch on the type string has a default that returns an error
+	tv := resultOf(second, 0)
+	unknownOK := false
+	for _, b := range fn.Blocks {
+		if len(b.Instrs) == 0 {
+			continue
+		}
+		ifi, ok := b.Instrs[len(b.Instrs)-1].(*ssa.If)
+		if !ok {
+			continue
+		}
+		bo, ok := ifi.Cond.(*ssa.BinOp)
+		if !ok {
+			continue
+		}
+		isT := false
+		for _, o := range origins(bo.X) {
+			if o.Kind == "call" && strings.HasPrefix(calleeName(o.Call), "strings.TrimSpace") {
+				if strip(arg(o.Call, 0)) == tv {
+					isT = true
+				}
+			}
+		}
+		if strip(bo.X) == tv {
+			isT = true
+		}
+		if !isT {
+			continue
+		}
+		next := b.Succs[1]
+		if len(next.Instrs) > 0 {
+			if nif, ok := next.Instrs[len(next.Instrs)-1].(*ssa.If); ok {
+				if nbo, ok := nif.Cond.(*ssa.BinOp); ok && nbo.X == bo.X {
+					continue // another letter comparison follows
+				}
+			}
+		}
+		unknownOK = !reachableBlock(fn, next, head)
+	}
+	c.Check(unknownOK, rule, "Unmarshal malformed an unknown type letter", fn.Pos(), "ends the parse", "an unknown type letter does not end the parse")
+	return true
 }
